@@ -142,7 +142,7 @@ def run(ctx):
     q = ctx.quick
     r, ss = sessions.generate(ctx, "c13", {"Templates": sessions.ALL_TEMPLATES, "NoiseSet": NOISE, "MaxEdits": 2,
                                            "EditKinds": '{"ExportReimport", "SwitchUnits", "AttachHeights", "MirrorAxes", "SwapEnds", "Rename", "InputFeatures"}',
-                                           "KeepNet": 211 if q else 23, "KeepEdit": 1, "Seed": ctx.seed})
+                                           "KeepNet": 211 if q else 47, "KeepEdit": 1 if q else 3, "Seed": ctx.seed})
     ss = [s for s in ss if s["edits"][-1]["e"]["k"] == "ExportReimport"]
     ss = ss[:: max(1, len(ss) // (400 if q else 6000))]
     ctx.note("SurveySession: %d sessions ending in ExportReimport" % len(ss))
